@@ -54,7 +54,12 @@ AltInstance(p) ==
 NInit == k = 1 /\ r = [qn |-> Compute(Pairs[1].null), qa |-> Compute(AltInstance(Pairs[1]))]
 NStepT == /\ k <= Len(Pairs) /\ k' = k + 1
           /\ r' = IF k + 1 <= Len(Pairs) THEN [qn |-> Compute(Pairs[k + 1].null), qa |-> Compute(AltInstance(Pairs[k + 1]))] ELSE r
-NStep == NStepT /\ Emit([act |-> "Nested", null |-> Pairs[k].null.name, alt |-> Pairs[k].alt.name,
+(* Whether the fitted nested model ESTIMATED a rate term or held it constant is no part of Projected: a constant   *)
+(* of the nested model is a fact about the process like any estimate, and is projected the same way.  Both cases  *)
+(* are handed to the harness.                                                                                       *)
+NullStatus == {"free", "constant"}
+NStep == \E status \in NullStatus :
+         NStepT /\ Emit([act |-> "Nested", null |-> Pairs[k].null.name, alt |-> Pairs[k].alt.name, nullstatus |-> status,
                          nullparams |-> Pairs[k].null.params, altparams |-> AltInstance(Pairs[k]).params,
                          chosen |-> [x \in 1..Len(Pairs[k].alt.pnames) |-> <<Pairs[k].alt.pnames[x],
                                         IF Unmapped(Pairs[k], Pairs[k].alt.pnames[x]) THEN "default" ELSE Chosen(Pairs[k], Pairs[k].alt.pnames[x])>>],
